@@ -33,14 +33,16 @@ theorem mem_toReqsFrom (c : DefaultReqs.Cfg) (act : Nat → Bool) :
 
 /-- a sample accepted by the checker falsifies no active non-optional requirement *kind* -/
 theorem accepted_kinds (c : DefaultReqs.Cfg) (act : Nat → Bool) (kinds : List ReqKind) (w : World)
-    (hacc : ∀ r ∈ toReqs c act kinds, r.active = true → r.optional = false → falsOf c kinds w r.id = false) :
-    ∀ k ∈ kinds, kindActive act k = true → k.optional c = false → falsified c w k = false := by
+    (hacc : ∀ r ∈ toReqs c act kinds, r.active = true → r.optional = false → falsOf c kinds w r.id = some false) :
+    ∀ k ∈ kinds, kindActive act k = true → k.optional c = false → w.raises k = false ∧ falsified c w k = false := by
   intro k hk hact hopt
   obtain ⟨i, hi⟩ := List.mem_iff_getElem?.mp hk
   have hm := mem_toReqsFrom c act kinds 0 i k hi
   have := hacc _ hm hact hopt
   simp only [Nat.zero_add, falsOf, hi] at this
-  exact this
+  cases hr : w.raises k with
+  | true => simp [hr] at this
+  | false => simpa [hr] using this
 
 /-- what "satisfies the built-in requirements" means for a sample `w` of a scenario with the given
     instances: the statement of the property, in terms of the real geometric predicates -/
@@ -118,7 +120,7 @@ theorem generated_scene_satisfies_requirements
     (h : generateInner cc B (toReqs dc act (allKinds defaults nUser)) st
           (cands.map (attemptOf dc (allKinds defaults nUser))) 0 = (st', some j)) :
     ∃ w ts, cands[j]? = some (some w, ts) ∧
-      (∀ k, k < nUser → act k = true → w.userFalse k = false) ∧
+      (∀ k, k < nUser → act k = true → w.raises (.user k) = false ∧ w.userFalse k = false) ∧
       (w.consistent insts → BuiltinsHold dc insts objects ego w) := by
   obtain ⟨a, ha, _, hsr, hall⟩ := generate_sound cc hcc B _ _ st 0 st' j h
   simp only [Nat.sub_zero, List.getElem?_map, Option.map_eq_some_iff] at ha
@@ -142,7 +144,7 @@ theorem generated_scene_satisfies_requirements
       have huf : dc.userFalsifiedWhenFalse = true := by
         obtain ⟨_, _, _, _, _, _, _, _, _, _, _, _, _, _, _, _, _, _, _, _, _, _, h23⟩ := dwf_parts dc hdc
         exact h23
-      simpa [falsified, huf] using this
+      exact ⟨this.1, by simpa [falsified, huf] using this.2⟩
     · intro hw
       apply builtins_of_not_falsified dc hdc insts objects ego defaults hgen w hw
       intro k hk hopt
@@ -159,17 +161,17 @@ theorem generated_scene_satisfies_requirements
             exact generate_no_user dc insts objects ego defaults hgen u hx
           exact this _ hk u rfl
         | _ => rfl
-      exact accepted_kinds dc act _ w hall k hmem hka hopt
+      exact (accepted_kinds dc act _ w hall k hmem hka hopt).2
 
 
 /-! ### the hypotheses of the composed theorem are satisfiable: a concrete run -/
 
 /-- objects 0 and 1 overlap -/
 def exWorldBad : World :=
-  ⟨fun _ => false, fun _ => true, fun a b => a == 0 && b == 1, fun _ => true, fun _ _ _ => true, fun _ => false, fun _ => false⟩
+  ⟨fun _ => false, fun _ => true, fun a b => a == 0 && b == 1, fun _ => true, fun _ _ _ => true, fun _ => false, fun _ => false, fun _ => false⟩
 /-- nothing overlaps, everything is contained and visible, the user requirement holds -/
 def exWorldGood : World :=
-  ⟨fun _ => false, fun _ => true, fun _ _ => false, fun _ => true, fun _ _ _ => true, fun _ => false, fun _ => false⟩
+  ⟨fun _ => false, fun _ => true, fun _ _ => false, fun _ => true, fun _ _ _ => true, fun _ => false, fun _ => false, fun _ => false⟩
 
 def exDefaults : List ReqKind := (generate Scenic.Gen.defaultReqsCfg exInsts [0, 1, 2, 3] (some 0)).getD []
 
@@ -179,6 +181,17 @@ example :
       (State.init 4 14)
       ([(none, []), (some exWorldBad, [1, 1/2, 1/4, 3]), (some exWorldGood, [1, 1, 1, 1, 1, 1, 1, 1, 1, 1, 1, 1, 1, 1])].map
         (attemptOf Scenic.Gen.defaultReqsCfg (allKinds exDefaults 1))) 0).2 = some 2 := by
+  decide +kernel
+
+/-- the user requirement raises RejectionException on this candidate -/
+def exWorldRaises : World := { exWorldGood with raises := fun k => k == .user 0 }
+
+/-- a candidate on which the (selected) user requirement raises is refused like a falsifying one -/
+example :
+    (generateInner Scenic.Gen.checkerCfg 4 (toReqs Scenic.Gen.defaultReqsCfg (fun _ => true) (allKinds exDefaults 1))
+      (State.init 4 14)
+      ([(some exWorldRaises, [1, 1, 1, 1, 1, 1, 1, 1, 1, 1, 1, 1, 1, 1]), (some exWorldGood, [1, 1, 1, 1, 1, 1, 1, 1, 1, 1, 1, 1, 1, 1])].map
+        (attemptOf Scenic.Gen.defaultReqsCfg (allKinds exDefaults 1))) 0).2 = some 1 := by
   decide +kernel
 
 example : exDefaults.length = 13 ∧ World.consistent exWorldGood exInsts := by
